@@ -88,10 +88,8 @@ StateTags(post, h) ==
 
 -----------------------------------------------------------------------------
 \* BeginBlock
-BeginTagsW(pre, c, e, post, newC, r) ==
-    LET d  == Diff(r.s, post)
-        cc == CfgOf(c, pre)
-    IN IfNot(N!Step_C25_Slash(pre, post, cc), "C25")
+BeginTagsW(pre, c, e, post, newC, r, d, cc) ==
+       IfNot(N!Step_C25_Slash(pre, post, cc), "C25")
        \cup IfNot(N!Step_C24_Leave(pre, post, cc, e.h, FALSE) /\ N!Step_C24_NoEarly(pre, post), "C24")
        \cup (IF d \cap {"val", "signing", "missed", "ixWaiting", "supply"} # {} THEN {"C25"} ELSE {})
        \cup (IF d \cap {"tmSet", "prevPower", "prevTotal"} # {} THEN {"C22"} ELSE {})
@@ -101,7 +99,8 @@ BeginTagsW(pre, c, e, post, newC, r) ==
        \cup (IF newC # r.c THEN {"C37"} ELSE {})
        \cup CommonTags(d, r.s, post)
 BeginTags(pre, c, e, post, newC) ==
-    UNION {BeginTagsW(pre, c, e, post, newC, r) : r \in {BeginBlock(pre, c, e.h, e.t, e.proposer, e.votes, e.evidence)}}
+    UNION {UNION {BeginTagsW(pre, c, e, post, newC, r, d, cc) : d \in {Diff(r.s, post)}, cc \in {CfgOf(c, pre)}} :
+             r \in {BeginBlock(pre, c, e.h, e.t, e.proposer, e.votes, e.evidence)}}
 
 -----------------------------------------------------------------------------
 \* DeliverTx
@@ -155,22 +154,14 @@ ClaimsPropTags(pre, e) ==
                       THEN {KnownOr("F-C32-reclaim", "C32")} ELSE {"C32"}
             ELSE {})
 
-DeliverTagsW(pre, c, e, post, newC, r) ==
+DeliverTagsD(pre, c, e, post, newC, r, cc, d) ==
     LET tx  == e.tx
         h   == e.h
         ok  == e.res.code = 0
-        cc  == CfgOf(c, pre)
         own == KindTag(pre, cc, tx, h)
-    IN IF r.class # "ok"
-         THEN IF post # pre \/ newC # c \/ ok
-                THEN {IF r.class \in AuthClasses THEN "C14" ELSE IF r.class = "dup" THEN "C16" ELSE "C15"}
-                     \cup (IF tx.kind \in G!GovKinds /\ r.class \in AuthClasses THEN {"C36"} ELSE {})
-                ELSE {}
-         ELSE
-         LET d    == Diff(r.s, post)
-             fee1 == ChargeFee(pre, tx)
-             replay == tx.kind = "proof" /\ HistOK(pre, tx, h) /\ K!ProofClass(fee1, cc, tx, h, StAt, CfgAt) = "replay"
-         IN (IF d # {} \/ ok # r.ok \/ newC # r.c THEN {own} ELSE {})
+        fee1 == ChargeFee(pre, tx)
+        replay == tx.kind = "proof" /\ HistOK(pre, tx, h) /\ K!ProofClass(fee1, cc, tx, h, StAt, CfgAt) = "replay"
+    IN     (IF d # {} \/ ok # r.ok \/ newC # r.c THEN {own} ELSE {})
             \cup (IF "supply" \in d THEN {"C17"} ELSE {})
             \cup (IF BalOf(post, FEE) # BalOf(r.s, FEE) THEN {"C15"} ELSE {})
             \cup (IF tx.fee < RequiredFee(cc, tx) THEN {IF tx.multisig THEN KnownOr("F-C15-multisig", "C15") ELSE "C15"} ELSE {})
@@ -185,19 +176,32 @@ DeliverTagsW(pre, c, e, post, newC, r) ==
             \cup (IF replay THEN IfNot(N!Step_C25_Slash(pre, post, cc), "C25") ELSE {})
             \cup (IF tx.kind \in A!AppsKinds
                     THEN IfNot(A!Step_C28_New(pre, cc, tx, post, ok) /\ A!Step_C28_Transfer(pre, cc, tx, post, ok), "C28")
-                         \cup IfNot(A!Step_C23_App(pre, cc, tx, post, ok), "C23")
+                         \* (ChainApps.Step_C23_App states that a bump never lowers the relay allowance: true
+                         \*  only while the relay parameters are what they were when the record was staked)
+                         \cup IfNot(~gh.relStable \/ A!Step_C23_App(pre, cc, tx, post, ok), "C23")
                          \cup IfNot(A!Step_C24_Deliver(pre, cc, tx, e.t, post, ok), "C24")
                     ELSE {})
             \cup (IF tx.kind \in G!GovKinds
-                    THEN IfNot(G!Step_C36_Param(pre, tx, post) /\ G!Step_C36_Dao(pre, tx, post, ok) /\ G!Step_C36_Upgrade(pre, tx, post, ok), "C36")
+                    THEN IfNot(G!Step_C36_Param(pre, tx, post) /\ G!Step_C36_Upgrade(pre, tx, post, ok)
+                               \* (ChainGov.Step_C36_Dao contradicts itself when the recipient IS the DAO account:
+                               \*  that case is left to the exact comparison)
+                               /\ ((tx.kind = "dao_transfer" /\ tx.to = DAO) \/ G!Step_C36_Dao(pre, tx, post, ok)), "C36")
                          \cup IfNot(G!Step_C37_Upgrade(pre, tx, post, ok), "C37")
                     ELSE {})
             \cup (IF tx.kind \in K!ClaimsKinds THEN ClaimsPropTags(pre, e) ELSE {})
 
+DeliverTagsW(pre, c, e, post, newC, r, cc) ==
+    IF r.class # "ok"
+      THEN IF post # pre \/ newC # c \/ e.res.code = 0
+             THEN {IF r.class \in AuthClasses THEN "C14" ELSE IF r.class = "dup" THEN "C16" ELSE "C15"}
+                  \cup (IF e.tx.kind \in G!GovKinds /\ r.class \in AuthClasses THEN {"C36"} ELSE {})
+             ELSE {}
+      ELSE UNION {DeliverTagsD(pre, c, e, post, newC, r, cc, d) : d \in {Diff(r.s, post)}}
+
 DeliverTags(pre, c, e, post, newC) ==
     IF ~HistOK(pre, e.tx, e.h) THEN {"BIND"}
-    ELSE UNION {DeliverTagsW(pre, c, e, post, newC, r) :
-                  r \in {DeliverTx(pre, c, e.tx, e.h, e.t, Oracle(post, e.tx), StAt, CfgAt)}}
+    ELSE UNION {DeliverTagsW(pre, c, e, post, newC, r, cc) :
+                  r \in {DeliverTx(pre, c, e.tx, e.h, e.t, Oracle(post, e.tx), StAt, CfgAt)}, cc \in {CfgOf(c, pre)}}
 
 -----------------------------------------------------------------------------
 \* EndBlock
@@ -206,10 +210,8 @@ PoolTag(inv, strictInv, sendAmt, daoAmt, idSend, idDao, tag) ==
     ELSE IF ~inv THEN {tag}
     ELSE (IF sendAmt > 0 THEN {KnownOr(idSend, tag)} ELSE {}) \cup (IF daoAmt > 0 THEN {KnownOr(idDao, tag)} ELSE {})
 
-EndTagsW(pre, c, e, post, newC, r) ==
-    LET d  == Diff(r.s, post)
-        cc == CfgOf(c, pre)
-    IN IfNot(Inv_C21(post), "C21")
+EndTagsW(pre, c, e, post, newC, r, d, cc) ==
+       IfNot(Inv_C21(post), "C21")
        \cup IfNot(Inv_C22(post, c) /\ N!Updates_C22(pre, post, e.updates), "C22")
        \cup IfNot(N!Step_C24_Leave(pre, post, cc, e.h, TRUE) /\ N!Step_C24_Time(pre, post, cc, e.t)
                   /\ Step_C24_End(pre, post, e.t) /\ Inv_C24(post, e.t), "C24")
@@ -225,7 +227,8 @@ EndTagsW(pre, c, e, post, newC, r) ==
        \cup (IF newC # c THEN {"C36"} ELSE {})
        \cup CommonTags(d, r.s, post)
 EndTags(pre, c, e, post, newC) ==
-    UNION {EndTagsW(pre, c, e, post, newC, r) : r \in {EndBlock(pre, c, e.h, e.t)}}
+    UNION {UNION {EndTagsW(pre, c, e, post, newC, r, d, cc) : d \in {Diff(r.s, post)}, cc \in {CfgOf(c, pre)}} :
+             r \in {EndBlock(pre, c, e.h, e.t)}}
 
 \* process restart: the activation schedule is derived from state; nothing else changes
 RestartTags(pre, c, e, post, newC) ==
@@ -274,28 +277,30 @@ HistAfter(e, nl) ==
            IN [k \in keep |-> IF k = e.h THEN [val |-> nl.val, app |-> nl.app, ixChain |-> nl.ixChain, cfg |-> nl.cfg] ELSE base[k]]
       ELSE hist
 
+\* Everything one event needs is bound ONCE with the idiom  \E x \in {expr} : ...  (TLC would
+\* re-evaluate a LET definition at every use).
+Judge(e, pre, c, post, newC) ==
+    (CASE e.ev = "reset"      -> ResetTags(e, post)
+       [] e.ev = "BeginBlock" -> BeginTags(pre, c, e, post, newC)
+       [] e.ev = "DeliverTx"  -> DeliverTags(pre, c, e, post, newC)
+       [] e.ev = "EndBlock"   -> EndTags(pre, c, e, post, newC)
+       [] e.ev = "Restart"    -> RestartTags(pre, c, e, post, newC))
+    \cup StateTags(post, e.h) \cup IfNot(NoDupLists(e), "MODEL")
+
 TraceNext ==
     /\ l <= Len(Trace)
     /\ l' = l + 1
-    /\ LET e    == Trace[l]
-           nl   == LastAfter(e, l)
-           pre  == StateOf(IF e.ev = "reset" THEN nl ELSE last)
-           post == StateOf(nl)
-           c    == Trace[IF e.ev = "reset" THEN nl.cfg ELSE last.cfg].cfg
-           newC == Trace[nl.cfg].cfg
-           tags == (CASE e.ev = "reset"      -> ResetTags(e, post)
-                      [] e.ev = "BeginBlock" -> BeginTags(pre, c, e, post, newC)
-                      [] e.ev = "DeliverTx"  -> DeliverTags(pre, c, e, post, newC)
-                      [] e.ev = "EndBlock"   -> EndTags(pre, c, e, post, newC)
-                      [] e.ev = "Restart"    -> RestartTags(pre, c, e, post, newC))
-                   \cup StateTags(post, e.h) \cup IfNot(NoDupLists(e), "MODEL")
-           kept == {tg \in tags : tg \notin Known}
-           new  == [i \in 1..Cardinality(kept) |-> <<l, SetToSeq(kept)[i]>>]
-       IN /\ (\A tg \in tags : tg \in Known => PrintT(<<"KNOWN-FINDING-SEEN", tg, l>>))
+    /\ \E e \in {Trace[l]} :
+       \E nl \in {LastAfter(e, l)} :
+       \E pre \in {StateOf(IF e.ev = "reset" THEN nl ELSE last)}, post \in {StateOf(nl)} :
+       \E c \in {Trace[IF e.ev = "reset" THEN nl.cfg ELSE last.cfg].cfg}, newC \in {Trace[nl.cfg].cfg} :
+       \E tags \in {Judge(e, pre, c, post, newC)} :
+       \E kept \in {SetToSeq({tg \in tags : tg \notin Known})} :
+          /\ (\A tg \in tags : tg \in Known => PrintT(<<"KNOWN-FINDING-SEEN", tg, l>>))
           /\ last' = nl
           /\ hist' = HistAfter(e, nl)
           /\ gh' = GhostNext(pre, e, post)
-          /\ errs' = IF Len(errs) >= MaxErrs THEN errs ELSE errs \o new
+          /\ errs' = IF Len(errs) >= MaxErrs THEN errs ELSE errs \o [i \in 1..Len(kept) |-> <<l, kept[i]>>]
 
 TraceSpec == TraceInit /\ [][TraceNext]_tvars
 
